@@ -10,6 +10,20 @@
 //!          destructive probes on the discarded execution: single-chunk alteration/removal must make
 //!          `verify` report; gc and full_gc must keep every live artifact; deleting the artifacts one
 //!          by one (+gc) must keep the remaining ones; after the last delete full_gc leaves no chunk.
+//! Part P  (E4, option space): artifact #0 written with every combination of PutOptions (content type not
+//!          given / "" / custom; tags none / one / two / duplicate; links none / one / duplicate; custom
+//!          metadata; created_by; filename; embedding none / dense / sparse; quick tier: a stated sub-product)
+//!          by put and by the streaming writer, next to a plain artifact sharing two of its three chunks, on
+//!          stores whose default content type is the default / "" / custom (and gc_min_age 0);
+//!          then every sequence of delete / gc / full_gc / repair until no new state appears. A delete
+//!          that returns an error is an observation: if the artifact still exists it stays in the reference
+//!          (and may be deleted again); every successful delete is repeated once.
+//! Part O  (E4, sequences): calls that rewrite the metadata record of #0 (update_metadata content type "" /
+//!          custom, filename + custom set/delete, set_meta, tag / untag, link / unlink present and absent,
+//!          set_embedding) interleaved with delete / gc / full_gc / repair, depth-bounded BFS; every new state
+//!          is drained as in part Q (a failing delete is retried once).
+//! Part C  (E4, input domain): max_artifact_size {1,4,5,8} x max_artifacts {-,1} x put / stream x 4 contents:
+//!          a refused write leaves the existing artifact readable and nothing behind after the drain.
 //! Part E1 (concurrent): real threads under vsched (every parking_lot acquisition inside /repo is a
 //!          scheduling point), all schedules with <= bound preemptions: writers || deleters || gc /
 //!          full_gc over overlapping content. At quiescence every existing artifact reads back; then
@@ -26,7 +40,7 @@ use std::future::Future;
 use std::rc::Rc;
 use std::sync::{Arc, Mutex};
 use std::task::{Context, Poll, Waker};
-use tensor_blob::{BlobConfig, BlobStore, BlobWriter, PutOptions};
+use tensor_blob::{BlobConfig, BlobStore, BlobWriter, MetadataUpdates, PutOptions};
 use tensor_store::{ScalarValue, TensorData, TensorStore, TensorValue};
 
 const CHUNK: usize = 4;
@@ -37,6 +51,29 @@ const AGE_MS: i64 = 61_000;
 const SIG_FULLGC: &str = "c19:unfinished-upload:chunk-collected-by-full_gc";
 const SIG_REPAIR: &str = "c19:unfinished-upload:refs-reset-by-repair";
 const SIG_REFRACE: &str = "c19:refcount-race:live-chunk-collected";
+/// a `delete` returned an error but the artifact still exists, and afterwards an existing artifact lost a chunk
+const SIG_DELERR: &str = "c19:delete-fails-midway:refs-dropped-artifact-kept";
+
+/// One `delete` as a client sees it. The statement does not say that delete succeeds, so an error is an
+/// observation, not a verdict: whether the artifact still exists afterwards is read from `exists`.
+#[derive(Clone, Copy, PartialEq, Eq, Debug)]
+enum DelObs {
+    /// Ok(())
+    Deleted,
+    /// Err, the artifact still exists (it stays in the reference and must keep reading back)
+    ErrKept,
+    /// Err, the artifact does not exist (any more)
+    ErrGone,
+}
+fn delete_obs(b: &BlobStore, id: &str) -> (DelObs, String) {
+    match now(b.delete(id)) {
+        Ok(()) => (DelObs::Deleted, String::new()),
+        Err(e) => match now(b.exists(id)) {
+            Ok(true) => (DelObs::ErrKept, e.to_string()),
+            _ => (DelObs::ErrGone, e.to_string()),
+        },
+    }
+}
 
 /// tensor_blob's API is `async` but contains no real suspension point (`clippy::unused_async`):
 /// poll once with a no-op waker. `Pending` would mean a tokio primitive sits on the path, which the
@@ -196,6 +233,51 @@ fn read_check(b: &BlobStore, id: &str, want: &[u8]) -> Result<(), String> {
     Ok(())
 }
 
+/// Integrity clause: every single-chunk alteration (4 kinds) and the removal of a chunk of artifact `id`
+/// must be reported by `verify` and by the reader's `verify`; the chunk is restored afterwards.
+fn integrity_probe(blob: &BlobStore, id: &str, bytes: &[u8], i: usize, evals: &mut u64, selftest: &str) -> Option<(String, String)> {
+    let keys: BTreeSet<String> = art_chunk_keys(blob, id).into_iter().collect();
+    for ck in keys {
+        let Ok(orig) = blob.store().get(&ck) else { continue };
+        let Some(data) = t_bytes(&orig, "_data") else { continue };
+        let mut variants: Vec<(&str, Vec<u8>)> = vec![];
+        let mut flipped = data.clone();
+        flipped[0] ^= 0x01;
+        variants.push(("first byte flipped", flipped));
+        let mut last = data.clone();
+        *last.last_mut().unwrap() ^= 0x20;
+        variants.push(("last byte changed", last));
+        variants.push(("one byte shorter", data[..data.len() - 1].to_vec()));
+        let mut longer = data.clone();
+        longer.push(data[0]);
+        variants.push(("one byte longer", longer));
+        if selftest == "verify" {
+            variants.push(("unchanged (self-test)", data.clone()));
+        }
+        for (what, alt) in variants {
+            let mut t = orig.clone();
+            t.set("_data", TensorValue::Scalar(ScalarValue::Bytes(alt.clone())));
+            let _ = blob.store().put(&ck, t);
+            *evals += 2;
+            let v = blob.verify(id);
+            let rv = now(blob.reader(id)).ok().map(|mut r| now(r.verify()));
+            let _ = blob.store().put(&ck, orig.clone());
+            if v == Ok(true) || rv == Some(Ok(true)) {
+                return Some(("c19:verify-misses-altered-chunk".into(), format!("artifact #{i} ({:?}), chunk {:?} {what} -> {:?}: verify -> {v:?}, reader.verify -> {rv:?}", s(bytes), s(&data), s(&alt))));
+            }
+        }
+        let _ = blob.store().delete(&ck);
+        *evals += 2;
+        let v = blob.verify(id);
+        let rv = now(blob.reader(id)).ok().map(|mut r| now(r.verify()));
+        let _ = blob.store().put(&ck, orig.clone());
+        if v == Ok(true) || rv == Some(Ok(true)) {
+            return Some(("c19:verify-misses-missing-chunk".into(), format!("artifact #{i} ({:?}), chunk {:?} removed: verify -> {v:?}, reader.verify -> {rv:?}", s(bytes), s(&data))));
+        }
+    }
+    None
+}
+
 // =================================================================================== Part S
 #[derive(Default)]
 struct PartS {
@@ -346,6 +428,7 @@ const MAX_ARTS: usize = 3;
 const MAX_WRITES: u8 = 3;
 const TAINT_FULLGC: u8 = 1;
 const TAINT_REPAIR: u8 = 2;
+const TAINT_DELERR: u8 = 4;
 
 #[derive(Clone, Copy, Debug, PartialEq, Eq, Hash, Serialize, Deserialize)]
 enum Op {
@@ -475,10 +558,13 @@ impl World {
             }
             Op::Delete(i) => {
                 let idx = self.live()[i as usize];
-                if let Err(e) = now(self.blob.delete(&self.arts[idx].id)) {
-                    machinery(&format!("delete of an existing artifact failed: {e}"));
+                match delete_obs(&self.blob, &self.arts[idx].id).0 {
+                    DelObs::Deleted | DelObs::ErrGone => self.arts[idx].live = false,
+                    DelObs::ErrKept => {
+                        self.arts[idx].taint |= TAINT_DELERR;
+                        self.world_taint |= TAINT_DELERR;
+                    }
                 }
-                self.arts[idx].live = false;
             }
             Op::Gc => {
                 nvc::env::clock_advance_ms(AGE_MS);
@@ -554,7 +640,9 @@ impl World {
     }
     fn sig_for(&self, idx: usize, ctx: &str) -> String {
         let t = if self.arts[idx].taint != 0 { self.arts[idx].taint } else { self.world_taint };
-        if t & TAINT_FULLGC != 0 {
+        if (t | self.world_taint) & TAINT_DELERR != 0 {
+            SIG_DELERR.into()
+        } else if t & TAINT_FULLGC != 0 {
             SIG_FULLGC.into()
         } else if t & TAINT_REPAIR != 0 {
             SIG_REPAIR.into()
@@ -622,45 +710,8 @@ impl World {
     fn probes(mut self, evals: &mut u64, selftest: &str) -> Option<(String, String)> {
         // 1. integrity: every single-chunk alteration / removal must be reported by verify
         for i in self.live() {
-            let id = self.arts[i].id.clone();
-            let keys: BTreeSet<String> = art_chunk_keys(&self.blob, &id).into_iter().collect();
-            for ck in keys {
-                let Ok(orig) = self.blob.store().get(&ck) else { continue };
-                let Some(data) = t_bytes(&orig, "_data") else { continue };
-                let mut variants: Vec<(&str, Vec<u8>)> = vec![];
-                let mut flipped = data.clone();
-                flipped[0] ^= 0x01;
-                variants.push(("first byte flipped", flipped));
-                let mut last = data.clone();
-                *last.last_mut().unwrap() ^= 0x20;
-                variants.push(("last byte changed", last));
-                variants.push(("one byte shorter", data[..data.len() - 1].to_vec()));
-                let mut longer = data.clone();
-                longer.push(data[0]);
-                variants.push(("one byte longer", longer));
-                if selftest == "verify" {
-                    variants.push(("unchanged (self-test)", data.clone()));
-                }
-                for (what, alt) in variants {
-                    let mut t = orig.clone();
-                    t.set("_data", TensorValue::Scalar(ScalarValue::Bytes(alt.clone())));
-                    let _ = self.blob.store().put(&ck, t);
-                    *evals += 2;
-                    let v = self.blob.verify(&id);
-                    let rv = now(self.blob.reader(&id)).ok().map(|mut r| now(r.verify()));
-                    let _ = self.blob.store().put(&ck, orig.clone());
-                    if v == Ok(true) || rv == Some(Ok(true)) {
-                        return Some(("c19:verify-misses-altered-chunk".into(), format!("artifact #{i} ({:?}), chunk {:?} {what} -> {:?}: verify -> {v:?}, reader.verify -> {rv:?}", s(&self.arts[i].bytes), s(&data), s(&alt))));
-                    }
-                }
-                let _ = self.blob.store().delete(&ck);
-                *evals += 2;
-                let v = self.blob.verify(&id);
-                let rv = now(self.blob.reader(&id)).ok().map(|mut r| now(r.verify()));
-                let _ = self.blob.store().put(&ck, orig.clone());
-                if v == Ok(true) || rv == Some(Ok(true)) {
-                    return Some(("c19:verify-misses-missing-chunk".into(), format!("artifact #{i} ({:?}), chunk {:?} removed: verify -> {v:?}, reader.verify -> {rv:?}", s(&self.arts[i].bytes), s(&data))));
-                }
+            if let Some(v) = integrity_probe(&self.blob, &self.arts[i].id, &self.arts[i].bytes, i, evals, selftest) {
+                return Some(v);
             }
         }
         // 2. collection keeps every live artifact
@@ -676,10 +727,19 @@ impl World {
         // 3. drain: delete one by one; the rest must survive gc; at the end full_gc leaves nothing
         self.writer = None;
         for i in self.live() {
-            if let Err(e) = now(self.blob.delete(&self.arts[i].id)) {
-                machinery(&format!("drain delete failed: {e}"));
+            // a client retries a delete that reported an error once
+            for _attempt in 0..2 {
+                match delete_obs(&self.blob, &self.arts[i].id).0 {
+                    DelObs::Deleted | DelObs::ErrGone => {
+                        self.arts[i].live = false;
+                        break;
+                    }
+                    DelObs::ErrKept => {
+                        self.arts[i].taint |= TAINT_DELERR;
+                        self.world_taint |= TAINT_DELERR;
+                    }
+                }
             }
-            self.arts[i].live = false;
             nvc::env::clock_advance_ms(AGE_MS);
             let _ = now(self.blob.gc());
             if let Some(v) = self.check_live("after delete of another artifact + clock+61s;gc", evals) {
@@ -690,7 +750,8 @@ impl World {
         let _ = now(self.blob.full_gc());
         *evals += 1;
         let left = chunk_table(&self.blob);
-        if !left.is_empty() {
+        // "after all artifacts are deleted": only when every delete went through
+        if self.live().is_empty() && !left.is_empty() {
             return Some(("c19:full-gc-leaves-chunks".into(), format!("all artifacts deleted, full_gc left {left:?}")));
         }
         None
@@ -800,6 +861,977 @@ fn replay_q(rep: &mut Report, ops: Vec<Op>, selftest: &str) {
     }
 }
 
+// =================================================================================== Parts P, O, C
+// The option space of put / stream-write (PutOptions), of the store (BlobConfig) and the calls that
+// rewrite an artifact's metadata record. Same oracle as part Q; what is new is *which* code paths the
+// writer's finish() and delete() take (secondary index entries exist or not, fields present or not).
+const O_CONTENTS: [&str; 4] = ["aaaabbbba", "aaaabbbb", "aaaa", "a"];
+
+/// PutOptions + filename, one small domain per field; every value selects a different branch in
+/// BlobWriter::new / build_metadata_tensor / write_secondary_indexes / delete_artifact (or is the
+/// neutral element of its field).
+#[derive(Clone, Copy, Debug, Default, PartialEq, Eq, Hash, Serialize, Deserialize)]
+struct Opt {
+    /// content_type: 0 = not given (config default applies), 1 = Some(""), 2 = Some("application/x-c19")
+    ct: u8,
+    /// tags: 0 = none, 1 = ["t"], 2 = ["t","u"], 3 = ["t","t"] (duplicate)
+    tags: u8,
+    /// linked_to: 0 = none, 1 = ["e"], 2 = ["e","e"] (duplicate)
+    links: u8,
+    /// custom metadata: 0 = none, 1 = {"k":"v", "":"x"}
+    meta: u8,
+    /// created_by: 0 = not given, 1 = "user:a"
+    by: u8,
+    /// filename: 0 = "f", 1 = ""
+    fname: u8,
+    /// embedding: 0 = none, 1 = dense [1,2,3], 2 = sparse [0,0,0,1]
+    emb: u8,
+}
+const OPT_DIMS: [usize; 7] = [3, 4, 3, 2, 2, 2, 3];
+impl Opt {
+    fn count() -> usize {
+        OPT_DIMS.iter().product()
+    }
+    fn from_index(mut i: usize) -> Opt {
+        let mut d = [0u8; 7];
+        for k in 0..7 {
+            d[k] = (i % OPT_DIMS[k]) as u8;
+            i /= OPT_DIMS[k];
+        }
+        Opt { ct: d[0], tags: d[1], links: d[2], meta: d[3], by: d[4], fname: d[5], emb: d[6] }
+    }
+    fn filename(self) -> &'static str {
+        if self.fname == 0 {
+            "f"
+        } else {
+            ""
+        }
+    }
+    fn build(self) -> PutOptions {
+        let mut o = PutOptions::new();
+        match self.ct {
+            1 => o = o.with_content_type(""),
+            2 => o = o.with_content_type("application/x-c19"),
+            _ => {}
+        }
+        match self.tags {
+            1 => o = o.with_tag("t"),
+            2 => o = o.with_tags(vec!["t".to_string(), "u".to_string()]),
+            3 => o = o.with_tag("t").with_tag("t"),
+            _ => {}
+        }
+        match self.links {
+            1 => o = o.with_link("e"),
+            2 => o = o.with_links(vec!["e".to_string(), "e".to_string()]),
+            _ => {}
+        }
+        if self.meta == 1 {
+            o = o.with_meta("k", "v").with_meta("", "x");
+        }
+        if self.by == 1 {
+            o = o.with_created_by("user:a");
+        }
+        match self.emb {
+            1 => o = o.with_embedding(vec![1.0, 2.0, 3.0], "m"),
+            2 => o = o.with_embedding(vec![0.0, 0.0, 0.0, 1.0], "m"),
+            _ => {}
+        }
+        o
+    }
+    fn show(self) -> String {
+        let mut v: Vec<String> = vec![];
+        match self.ct {
+            1 => v.push("content_type(\"\")".into()),
+            2 => v.push("content_type(\"application/x-c19\")".into()),
+            _ => {}
+        }
+        match self.tags {
+            1 => v.push("tag(t)".into()),
+            2 => v.push("tags(t,u)".into()),
+            3 => v.push("tags(t,t)".into()),
+            _ => {}
+        }
+        match self.links {
+            1 => v.push("link(e)".into()),
+            2 => v.push("links(e,e)".into()),
+            _ => {}
+        }
+        if self.meta == 1 {
+            v.push("meta(k=v,\"\"=x)".into());
+        }
+        if self.by == 1 {
+            v.push("created_by(user:a)".into());
+        }
+        if self.fname == 1 {
+            v.push("filename(\"\")".into());
+        }
+        match self.emb {
+            1 => v.push("embedding(dense)".into()),
+            2 => v.push("embedding(sparse)".into()),
+            _ => {}
+        }
+        if v.is_empty() {
+            "default".into()
+        } else {
+            v.join("+")
+        }
+    }
+}
+
+/// BlobConfig variant (chunk size is always 4 here; part S varies it)
+#[derive(Clone, Copy, Debug, Default, PartialEq, Eq, Hash, Serialize, Deserialize)]
+struct Cfg {
+    /// default_content_type: 0 = "application/octet-stream" (default), 1 = "", 2 = "text/plain"
+    dct: u8,
+    /// gc_min_age 0 s (and gc_interval 1 s, unused without start()); the gc step then ages by 1 s instead of 61 s
+    min_age0: bool,
+    /// gc_batch_size (0 = default 100)
+    gc_batch: u8,
+    /// max_artifact_size (0 = unlimited)
+    max_size: u8,
+    /// max_artifacts (0 = unlimited)
+    max_arts: u8,
+}
+impl Cfg {
+    fn build(self) -> BlobConfig {
+        let mut c = BlobConfig::new().with_chunk_size(CHUNK);
+        match self.dct {
+            1 => c = c.with_default_content_type(""),
+            2 => c = c.with_default_content_type("text/plain"),
+            _ => {}
+        }
+        if self.min_age0 {
+            c = c.with_gc_min_age(std::time::Duration::ZERO).with_gc_interval(std::time::Duration::from_secs(1));
+        }
+        if self.gc_batch != 0 {
+            c = c.with_gc_batch_size(self.gc_batch as usize);
+        }
+        if self.max_size != 0 {
+            c = c.with_max_artifact_size(self.max_size as usize);
+        }
+        if self.max_arts != 0 {
+            c = c.with_max_artifacts(self.max_arts as usize);
+        }
+        c
+    }
+    fn age_ms(self) -> i64 {
+        if self.min_age0 {
+            1_000
+        } else {
+            AGE_MS
+        }
+    }
+    fn limited(self) -> bool {
+        self.max_size != 0 || self.max_arts != 0
+    }
+    fn show(self) -> String {
+        format!(
+            "default_content_type={} gc_min_age={} gc_batch={} max_artifact_size={} max_artifacts={}",
+            ["<default>", "\"\"", "text/plain"][self.dct as usize],
+            if self.min_age0 { "0s" } else { "60s" },
+            if self.gc_batch == 0 { 100 } else { self.gc_batch as usize },
+            self.max_size,
+            self.max_arts
+        )
+    }
+}
+
+#[derive(Clone, Copy, Debug, PartialEq, Eq, Hash, Serialize, Deserialize)]
+enum Kind {
+    Put,
+    /// writer(); write(first half + 1 byte); write(rest); finish()
+    Stream,
+}
+#[derive(Clone, Copy, Debug, PartialEq, Eq, Hash, Serialize, Deserialize)]
+struct Create {
+    kind: Kind,
+    content: u8,
+    opt: Opt,
+}
+impl Create {
+    fn show(self) -> String {
+        format!("{}({:?}, {})", if self.kind == Kind::Put { "put" } else { "stream" }, O_CONTENTS[self.content as usize], self.opt.show())
+    }
+}
+
+const UPD_CT: [&str; 2] = ["", "image/png"];
+const TAGS: [&str; 2] = ["t", "n"];
+const UNTAGS: [&str; 2] = ["t", "zz"];
+const LINKS: [&str; 2] = ["e", "m"];
+const UNLINKS: [&str; 2] = ["e", "zz"];
+
+/// operations of parts P / O / C; the first field of the per-artifact ones is the creation index
+#[derive(Clone, Copy, Debug, PartialEq, Eq, Hash, Serialize, Deserialize)]
+enum OOp {
+    /// delete(id); when it returns Ok the call is repeated once (a client whose acknowledgement was lost):
+    /// whatever the repetition returns, nothing else may change
+    Del(u8),
+    Gc,
+    FullGc,
+    Repair,
+    /// update_metadata(with_content_type(UPD_CT[v]))
+    UpdCt(u8, u8),
+    /// update_metadata(with_filename("g").set_meta("n","1").delete_meta("k"))
+    UpdMisc(u8),
+    /// set_meta("k","z")
+    SetMeta(u8),
+    Tag(u8, u8),
+    Untag(u8, u8),
+    Link(u8, u8),
+    Unlink(u8, u8),
+    /// set_embedding([0,1,0,0],"m2")
+    SetEmb(u8),
+}
+fn oshow(op: OOp) -> String {
+    match op {
+        OOp::Del(i) => format!("delete(#{i})"),
+        OOp::Gc => "clock+age;gc".into(),
+        OOp::FullGc => "full_gc".into(),
+        OOp::Repair => "repair".into(),
+        OOp::UpdCt(i, v) => format!("update_metadata(#{i}, content_type={:?})", UPD_CT[v as usize]),
+        OOp::UpdMisc(i) => format!("update_metadata(#{i}, filename=g, set n=1, delete k)"),
+        OOp::SetMeta(i) => format!("set_meta(#{i}, k=z)"),
+        OOp::Tag(i, v) => format!("tag(#{i}, {})", TAGS[v as usize]),
+        OOp::Untag(i, v) => format!("untag(#{i}, {})", UNTAGS[v as usize]),
+        OOp::Link(i, v) => format!("link(#{i}, {})", LINKS[v as usize]),
+        OOp::Unlink(i, v) => format!("unlink(#{i}, {})", UNLINKS[v as usize]),
+        OOp::SetEmb(i) => format!("set_embedding(#{i})"),
+    }
+}
+fn oshow_path(p: &[OOp]) -> Vec<String> {
+    p.iter().map(|o| oshow(*o)).collect()
+}
+
+#[derive(Clone, Copy, PartialEq, Eq, Debug, Serialize, Deserialize)]
+enum Profile {
+    /// delete / gc / full_gc / repair only
+    Life,
+    /// Life + every metadata-rewriting call on artifact #0
+    Mutate,
+}
+
+#[derive(Clone, Debug, Serialize, Deserialize)]
+struct OCase {
+    part: String,
+    cfg: Cfg,
+    creates: Vec<Create>,
+    profile: Profile,
+    max_depth: usize,
+}
+impl OCase {
+    fn show(&self) -> String {
+        format!("[{}] {}", self.cfg.show(), self.creates.iter().map(|c| c.show()).collect::<Vec<_>>().join("; "))
+    }
+}
+
+struct OArt {
+    id: String,
+    bytes: Vec<u8>,
+    created: bool,
+    live: bool,
+    taint: u8,
+}
+/// what the last applied operation returned (tallied once per transition)
+#[derive(Clone, Copy, PartialEq, Eq, Debug)]
+enum Obs {
+    None,
+    /// result of delete; when it went through, whether the immediately repeated delete returned Ok
+    Del(DelObs, Option<bool>),
+    MutOk,
+    MutErr,
+    CreateErr,
+}
+struct OWorld {
+    cfg: Cfg,
+    blob: Blob,
+    arts: Vec<OArt>,
+    world_taint: u8,
+    /// text of the last delete error (for the message)
+    last_del_err: String,
+    last_op_full_gc: bool,
+    selftest: &'static str,
+}
+
+impl OWorld {
+    fn build(case: &OCase, selftest: &'static str) -> OWorld {
+        let blob = match now(BlobStore::new(take_store(), case.cfg.build())) {
+            Ok(b) => Blob { b },
+            Err(e) => machinery(&format!("BlobStore::new failed: {e}")),
+        };
+        let mut w = OWorld { cfg: case.cfg, blob, arts: vec![], world_taint: 0, last_del_err: String::new(), last_op_full_gc: false, selftest };
+        for c in &case.creates {
+            w.create(*c);
+        }
+        w
+    }
+    fn create(&mut self, c: Create) -> Obs {
+        let bytes = O_CONTENTS[c.content as usize].as_bytes().to_vec();
+        let r: Result<String, String> = match c.kind {
+            Kind::Put => now(self.blob.put(c.opt.filename(), &bytes, c.opt.build())).map_err(|e| e.to_string()),
+            Kind::Stream => (|| {
+                let mut w = now(self.blob.writer(c.opt.filename(), c.opt.build())).map_err(|e| e.to_string())?;
+                let cut = bytes.len() / 2 + 1;
+                now(w.write(&bytes[..cut.min(bytes.len())])).map_err(|e| e.to_string())?;
+                now(w.write(&bytes[cut.min(bytes.len())..])).map_err(|e| e.to_string())?;
+                let _ = (w.bytes_written(), w.chunks_written());
+                now(w.finish()).map_err(|e| e.to_string())
+            })(),
+        };
+        self.last_op_full_gc = false;
+        match r {
+            Ok(id) => {
+                let mut want = bytes;
+                if self.selftest == "opts" && c.opt.ct == 1 {
+                    want[0] ^= 1; // deliberately wrong expectation (oracle self-test)
+                }
+                self.arts.push(OArt { id, bytes: want, created: true, live: true, taint: 0 });
+                Obs::None
+            }
+            Err(e) => {
+                // only a store with a size / count limit may refuse non-empty data
+                if !self.cfg.limited() {
+                    machinery(&format!("{} failed on an unlimited store: {e}", c.show()));
+                }
+                self.arts.push(OArt { id: String::new(), bytes: vec![], created: false, live: false, taint: 0 });
+                Obs::CreateErr
+            }
+        }
+    }
+    fn enabled(&self, prof: Profile) -> Vec<OOp> {
+        let mut v = vec![];
+        for (i, a) in self.arts.iter().enumerate() {
+            if a.live {
+                v.push(OOp::Del(i as u8));
+            }
+        }
+        v.push(OOp::Gc);
+        v.push(OOp::FullGc);
+        v.push(OOp::Repair);
+        if prof == Profile::Mutate && self.arts.first().is_some_and(|a| a.live) {
+            for x in 0..2u8 {
+                v.push(OOp::UpdCt(0, x));
+            }
+            v.push(OOp::UpdMisc(0));
+            v.push(OOp::SetMeta(0));
+            for x in 0..2u8 {
+                v.push(OOp::Tag(0, x));
+            }
+            for x in 0..2u8 {
+                v.push(OOp::Untag(0, x));
+            }
+            for x in 0..2u8 {
+                v.push(OOp::Link(0, x));
+            }
+            for x in 0..2u8 {
+                v.push(OOp::Unlink(0, x));
+            }
+            v.push(OOp::SetEmb(0));
+        }
+        v
+    }
+    /// oracle self-test "delerr": what a delete that fails half-way does (references dropped, error
+    /// returned, metadata kept), imitated through the underlying store for artifacts with content type ""
+    fn simulated_half_delete(&self, idx: usize) -> bool {
+        if self.selftest != "delerr" {
+            return false;
+        }
+        let id = &self.arts[idx].id;
+        if !now(self.blob.metadata(id)).is_ok_and(|m| m.content_type.is_empty()) {
+            return false;
+        }
+        for ck in art_chunk_keys(&self.blob, id) {
+            if let Ok(mut t) = self.blob.store().get(&ck) {
+                let r = t_int(&t, "_refs").unwrap_or(1);
+                t.set("_refs", TensorValue::Scalar(ScalarValue::Int((r - 1).max(0))));
+                let _ = self.blob.store().put(&ck, t);
+            }
+        }
+        true
+    }
+    fn del(&mut self, idx: usize) -> Obs {
+        if !self.arts[idx].live {
+            return Obs::None;
+        }
+        let (obs, err) = if self.simulated_half_delete(idx) { (DelObs::ErrKept, "simulated (self-test)".to_string()) } else { delete_obs(&self.blob, &self.arts[idx].id) };
+        match obs {
+            DelObs::Deleted | DelObs::ErrGone => self.arts[idx].live = false,
+            DelObs::ErrKept => {
+                self.arts[idx].taint |= TAINT_DELERR;
+                self.world_taint |= TAINT_DELERR;
+                self.last_del_err = err;
+            }
+        }
+        let again = (obs == DelObs::Deleted).then(|| now(self.blob.delete(&self.arts[idx].id)).is_ok());
+        Obs::Del(obs, again)
+    }
+    fn apply(&mut self, op: OOp) -> Obs {
+        let full_gc = op == OOp::FullGc;
+        let id_of = |w: &OWorld, i: u8| w.arts[i as usize].id.clone();
+        let mutres = |r: Result<(), tensor_blob::BlobError>| if r.is_ok() { Obs::MutOk } else { Obs::MutErr };
+        let obs = match op {
+            OOp::Del(i) => self.del(i as usize),
+            OOp::Gc => {
+                nvc::env::clock_advance_ms(self.cfg.age_ms());
+                if let Err(e) = now(self.blob.gc()) {
+                    machinery(&format!("gc failed: {e}"));
+                }
+                Obs::None
+            }
+            OOp::FullGc => {
+                if let Err(e) = now(self.blob.full_gc()) {
+                    machinery(&format!("full_gc failed: {e}"));
+                }
+                Obs::None
+            }
+            OOp::Repair => {
+                if let Err(e) = self.blob.repair() {
+                    machinery(&format!("repair failed: {e}"));
+                }
+                Obs::None
+            }
+            OOp::UpdCt(i, v) => mutres(now(self.blob.update_metadata(&id_of(self, i), MetadataUpdates::new().with_content_type(UPD_CT[v as usize])))),
+            OOp::UpdMisc(i) => mutres(now(self.blob.update_metadata(&id_of(self, i), MetadataUpdates::new().with_filename("g").set_meta("n", "1").delete_meta("k")))),
+            OOp::SetMeta(i) => mutres(now(self.blob.set_meta(&id_of(self, i), "k", "z"))),
+            OOp::Tag(i, v) => mutres(now(self.blob.tag(&id_of(self, i), TAGS[v as usize]))),
+            OOp::Untag(i, v) => mutres(now(self.blob.untag(&id_of(self, i), UNTAGS[v as usize]))),
+            OOp::Link(i, v) => mutres(now(self.blob.link(&id_of(self, i), LINKS[v as usize]))),
+            OOp::Unlink(i, v) => mutres(now(self.blob.unlink(&id_of(self, i), UNLINKS[v as usize]))),
+            OOp::SetEmb(i) => mutres(now(self.blob.set_embedding(&id_of(self, i), vec![0.0, 1.0, 0.0, 0.0], "m2"))),
+        };
+        self.last_op_full_gc = full_gc;
+        obs
+    }
+    fn replay(case: &OCase, path: &[OOp], selftest: &'static str) -> OWorld {
+        let mut w = OWorld::build(case, selftest);
+        for &op in path {
+            w.apply(op);
+        }
+        w
+    }
+    fn live(&self) -> Vec<usize> {
+        (0..self.arts.len()).filter(|&i| self.arts[i].live).collect()
+    }
+    /// canonical state: every `_blob:` key with its record (artifact ids -> creation index, chunk keys ->
+    /// chunk bytes, timestamps / checksum dropped), plus the reference's view and the taints
+    fn key(&self) -> (String, bool) {
+        let st = self.blob.store();
+        let mut chunk_data: BTreeMap<String, String> = BTreeMap::new();
+        let mut shared = false;
+        let mut lines: Vec<String> = vec![];
+        for k in st.scan("_blob:chunk:") {
+            if let Ok(t) = st.get(&k) {
+                let d = t_bytes(&t, "_data").map_or("?".to_string(), |d| s(&d));
+                let r = t_int(&t, "_refs").unwrap_or(-1);
+                shared |= r >= 2;
+                lines.push(format!("C {d}:{r}"));
+                chunk_data.insert(k, d);
+            }
+        }
+        let norm = |x: &str| -> String {
+            let mut x = x.to_string();
+            for (i, a) in self.arts.iter().enumerate() {
+                if a.created {
+                    x = x.replace(&a.id, &format!("#{i}"));
+                }
+            }
+            x
+        };
+        for k in st.scan("_blob:meta:") {
+            let Ok(t) = st.get(&k) else { continue };
+            let mut fields: Vec<String> = vec![];
+            for (f, v) in t.fields_iter() {
+                match f.as_str() {
+                    "_created" | "_modified" | "_checksum" | "_id" => {}
+                    "_chunks" => {
+                        if let TensorValue::Pointers(p) = v {
+                            let l: Vec<String> = p.iter().map(|ck| chunk_data.get(ck).cloned().unwrap_or_else(|| "<missing>".into())).collect();
+                            fields.push(format!("_chunks={l:?}"));
+                        }
+                    }
+                    _ => fields.push(format!("{f}={v:?}")),
+                }
+            }
+            fields.sort();
+            lines.push(format!("M {} {}", norm(&k), fields.join(",")));
+        }
+        for k in st.scan("_blob:idx:") {
+            lines.push(format!("I {}", norm(&k)));
+        }
+        lines.sort();
+        let mut k = lines.join("\n");
+        k.push_str("\n|");
+        for a in &self.arts {
+            k.push_str(&format!("{}{}{}t{};", u8::from(a.created), u8::from(a.live), s(&a.bytes), a.taint));
+        }
+        k.push_str(&format!("|T{}", self.world_taint));
+        (k, shared)
+    }
+    fn sig_for(&self, ctx: &str) -> String {
+        if self.world_taint & TAINT_DELERR != 0 {
+            SIG_DELERR.into()
+        } else {
+            format!("c19:opt:{ctx}")
+        }
+    }
+    fn ctx_note(&self) -> String {
+        if self.world_taint & TAINT_DELERR != 0 {
+            format!(" [an earlier delete returned Err({}) and left the artifact in place]", self.last_del_err)
+        } else {
+            String::new()
+        }
+    }
+    /// non-destructive check of everything observable after a step
+    fn step_check(&self, evals: &mut u64) -> Option<(String, String)> {
+        let mut live_ids = BTreeSet::new();
+        let mut total = 0usize;
+        for (i, a) in self.arts.iter().enumerate() {
+            if !a.created {
+                continue;
+            }
+            *evals += 1;
+            if a.live {
+                live_ids.insert(a.id.clone());
+                total += a.bytes.len();
+                if let Err(e) = read_check(&self.blob, &a.id, &a.bytes) {
+                    return Some((self.sig_for("read-mismatch"), format!("artifact #{i} ({:?}): {e}; chunk table {:?}{}", s(&a.bytes), chunk_table(&self.blob), self.ctx_note())));
+                }
+                // read-only listings and accessors: run, never judged (not part of the statement)
+                let _ = (now(self.blob.links(&a.id)), now(self.blob.get_meta(&a.id, "k")));
+            } else {
+                let ex = now(self.blob.exists(&a.id));
+                let g = now(self.blob.get(&a.id));
+                if ex != Ok(false) || g.is_ok() {
+                    return Some(("c19:opt:deleted-artifact-readable".into(), format!("deleted artifact #{i}: exists -> {ex:?}, get ok = {}", g.is_ok())));
+                }
+            }
+        }
+        let _ = (now(self.blob.by_tag("t")), now(self.blob.by_content_type("")), now(self.blob.by_content_type("application/octet-stream")), now(self.blob.by_creator("user:a")), now(self.blob.artifacts_for("e")));
+        *evals += 1;
+        match now(self.blob.stats()) {
+            Ok(st) => {
+                if st.artifact_count != live_ids.len() || st.total_bytes != total {
+                    return Some(("c19:opt:stats".into(), format!("stats: {} artifacts / {} bytes, reference {} / {}", st.artifact_count, st.total_bytes, live_ids.len(), total)));
+                }
+            }
+            Err(e) => machinery(&format!("stats failed: {e}")),
+        }
+        match now(self.blob.list(None)) {
+            Ok(l) => {
+                let got: BTreeSet<String> = l.into_iter().collect();
+                if got != live_ids {
+                    return Some(("c19:opt:list".into(), format!("list() = {} ids, reference {}", got.len(), live_ids.len())));
+                }
+            }
+            Err(e) => machinery(&format!("list failed: {e}")),
+        }
+        let table = chunk_table(&self.blob);
+        let distinct: BTreeSet<&String> = table.iter().map(|(d, _)| d).collect();
+        if distinct.len() != table.len() {
+            return Some(("c19:dedup:identical-content-stored-twice".into(), format!("chunk table {table:?}")));
+        }
+        // after all artifacts are deleted a full collection leaves no chunks
+        if self.last_op_full_gc && live_ids.is_empty() {
+            *evals += 1;
+            if !table.is_empty() {
+                return Some(("c19:full-gc-leaves-chunks".into(), format!("no artifact exists, full_gc left {table:?}")));
+            }
+        }
+        None
+    }
+    fn check_live(&self, ctx: &str, evals: &mut u64) -> Option<(String, String)> {
+        for i in self.live() {
+            let a = &self.arts[i];
+            *evals += 1;
+            if let Err(e) = read_check(&self.blob, &a.id, &a.bytes) {
+                return Some((self.sig_for("read-mismatch"), format!("artifact #{i} ({:?}) {ctx}: {e}; chunk table {:?}{}", s(&a.bytes), chunk_table(&self.blob), self.ctx_note())));
+            }
+        }
+        None
+    }
+    /// integrity clause on every existing artifact (chunks are restored afterwards)
+    fn integrity(&self, evals: &mut u64) -> Option<(String, String)> {
+        for i in self.live() {
+            if let Some(v) = integrity_probe(&self.blob, &self.arts[i].id, &self.arts[i].bytes, i, evals, self.selftest) {
+                return Some(v);
+            }
+        }
+        None
+    }
+    /// destructive continuation (the execution is discarded afterwards): collection keeps every existing
+    /// artifact; deleting them one by one (a delete that reports an error is retried once) keeps the rest;
+    /// when all are gone full_gc leaves no chunk. Returns the number of artifacts that could not be deleted.
+    fn drain(mut self, evals: &mut u64) -> (Option<(String, String)>, u64) {
+        let age = self.cfg.age_ms();
+        nvc::env::clock_advance_ms(age);
+        let _ = now(self.blob.gc());
+        if let Some(v) = self.check_live("after clock+age;gc", evals) {
+            return (Some(v), 0);
+        }
+        let _ = now(self.blob.full_gc());
+        if let Some(v) = self.check_live("after full_gc", evals) {
+            return (Some(v), 0);
+        }
+        for i in self.live() {
+            for _attempt in 0..2 {
+                if !matches!(self.del(i), Obs::Del(DelObs::ErrKept, _)) {
+                    break;
+                }
+            }
+            nvc::env::clock_advance_ms(age);
+            let _ = now(self.blob.gc());
+            if let Some(v) = self.check_live(&format!("after delete(#{i}) + clock+age;gc"), evals) {
+                return (Some(v), 0);
+            }
+        }
+        nvc::env::clock_advance_ms(age);
+        let _ = now(self.blob.full_gc());
+        let undeletable = self.live().len() as u64;
+        if undeletable == 0 {
+            *evals += 1;
+            let left = chunk_table(&self.blob);
+            if !left.is_empty() {
+                return (Some(("c19:full-gc-leaves-chunks".into(), format!("all artifacts deleted, full_gc left {left:?}"))), 0);
+            }
+        } else if let Some(v) = self.check_live("after the final full_gc (delete kept failing)", evals) {
+            return (Some(v), undeletable);
+        }
+        (None, undeletable)
+    }
+}
+
+#[derive(Default)]
+struct ORes {
+    cases: u64,
+    states: u64,
+    shared_states: u64,
+    transitions: u64,
+    ops_run: u64,
+    evals: u64,
+    probed: u64,
+    violating: u64,
+    by_sig: BTreeMap<String, u64>,
+    viols: Vec<(String, String, Value)>,
+    not_fixpoint: u64,
+    max_level: usize,
+    del_ok: u64,
+    del_err_kept: u64,
+    del_err_gone: u64,
+    del_again_ok: u64,
+    del_again_err: u64,
+    mut_ok: u64,
+    mut_err: u64,
+    create_err: u64,
+    undeletable_in_drain: u64,
+    root_keys: BTreeSet<String>,
+    sample: Option<Value>,
+}
+impl ORes {
+    fn tally(&mut self, o: Obs) {
+        match o {
+            Obs::None => {}
+            Obs::Del(DelObs::Deleted, again) => {
+                self.del_ok += 1;
+                match again {
+                    Some(true) => self.del_again_ok += 1,
+                    _ => self.del_again_err += 1,
+                }
+            }
+            Obs::Del(DelObs::ErrKept, _) => self.del_err_kept += 1,
+            Obs::Del(DelObs::ErrGone, _) => self.del_err_gone += 1,
+            Obs::MutOk => self.mut_ok += 1,
+            Obs::MutErr => self.mut_err += 1,
+            Obs::CreateErr => self.create_err += 1,
+        }
+    }
+    fn viol(&mut self, case: &OCase, path: &[OOp], sig: String, msg: String) {
+        self.violating += 1;
+        *self.by_sig.entry(sig.clone()).or_default() += 1;
+        if self.viols.iter().filter(|v| v.0 == sig).count() < 3 {
+            let rj = json!({"part": case.part, "case": case, "ops": path, "setup_readable": case.show(), "ops_readable": oshow_path(path)});
+            self.viols.push((sig, format!("{} then {:?}: {msg}", case.show(), oshow_path(path)), rj));
+        }
+    }
+    fn merge(&mut self, o: ORes) {
+        self.cases += o.cases;
+        self.states += o.states;
+        self.shared_states += o.shared_states;
+        self.transitions += o.transitions;
+        self.ops_run += o.ops_run;
+        self.evals += o.evals;
+        self.probed += o.probed;
+        self.violating += o.violating;
+        for (k, v) in o.by_sig {
+            *self.by_sig.entry(k).or_default() += v;
+        }
+        for v in o.viols {
+            if self.viols.iter().filter(|x| x.0 == v.0).count() < 3 {
+                self.viols.push(v);
+            }
+        }
+        self.not_fixpoint += o.not_fixpoint;
+        self.max_level = self.max_level.max(o.max_level);
+        self.del_ok += o.del_ok;
+        self.del_err_kept += o.del_err_kept;
+        self.del_err_gone += o.del_err_gone;
+        self.del_again_ok += o.del_again_ok;
+        self.del_again_err += o.del_again_err;
+        self.mut_ok += o.mut_ok;
+        self.mut_err += o.mut_err;
+        self.create_err += o.create_err;
+        self.undeletable_in_drain += o.undeletable_in_drain;
+        self.root_keys.extend(o.root_keys);
+        if self.sample.is_none() {
+            self.sample = o.sample;
+        }
+    }
+    fn to_json(&self) -> Value {
+        json!({"cases": self.cases, "states": self.states, "states_with_shared_chunk": self.shared_states, "transitions": self.transitions, "ops_executed_incl_replay": self.ops_run,
+               "oracle_comparisons": self.evals, "states_probed": self.probed, "violating_transitions": self.violating, "violations_by_signature": self.by_sig,
+               "cases_cut_at_depth_bound": self.not_fixpoint, "deepest_level_with_new_states": self.max_level, "distinct_initial_states": self.root_keys.len(),
+               "delete_results": {"ok": self.del_ok, "err_artifact_kept": self.del_err_kept, "err_artifact_gone": self.del_err_gone, "repeat_after_success_ok": self.del_again_ok, "repeat_after_success_err": self.del_again_err},
+               "metadata_calls": {"ok": self.mut_ok, "err": self.mut_err}, "creates_refused_by_limit": self.create_err, "artifacts_undeletable_in_drain": self.undeletable_in_drain})
+    }
+}
+
+struct OTr {
+    path: Vec<OOp>,
+    key: String,
+    shared: bool,
+    viol: Option<(String, String)>,
+    evals: u64,
+    probed: bool,
+    obs: Obs,
+    undeletable: u64,
+}
+
+fn o_expand(case: &OCase, path: &[OOp], seen: &HashSet<String>, selftest: &'static str) -> Vec<OTr> {
+    let ops = OWorld::replay(case, path, selftest).enabled(case.profile);
+    let mut out = vec![];
+    for op in ops {
+        let mut w = OWorld::replay(case, path, selftest);
+        let obs = w.apply(op);
+        let mut p = path.to_vec();
+        p.push(op);
+        let mut evals = 0u64;
+        let mut viol = w.step_check(&mut evals);
+        let (key, shared) = w.key();
+        let mut probed = false;
+        let mut undeletable = 0;
+        // the Life profile runs to its fixpoint, which contains every continuation the drain would try
+        if viol.is_none() && case.profile == Profile::Mutate && !seen.contains(&key) {
+            probed = true;
+            (viol, undeletable) = w.drain(&mut evals);
+        }
+        out.push(OTr { path: p, key, shared, viol, evals, probed, obs, undeletable });
+    }
+    out
+}
+
+/// BFS over one case up to its depth bound (or until no new state appears: fixpoint)
+fn run_case(case: &OCase, inner_par: bool, selftest: &'static str) -> ORes {
+    let mut r = ORes { cases: 1, ..Default::default() };
+    let root = OWorld::build(case, selftest);
+    for a in &root.arts {
+        if !a.created {
+            r.tally(Obs::CreateErr);
+        }
+    }
+    let mut evals = 0u64;
+    let (rk, rshared) = root.key();
+    r.states = 1;
+    r.shared_states += u64::from(rshared);
+    r.root_keys.insert(rk.clone());
+    let mut viol = root.step_check(&mut evals);
+    if viol.is_none() {
+        viol = root.integrity(&mut evals);
+    }
+    // (the Life profile runs to its fixpoint: the shortest failing operation sequence is found by the search)
+    if viol.is_none() && case.profile == Profile::Mutate {
+        let (v, u) = root.drain(&mut evals);
+        viol = v;
+        r.undeletable_in_drain += u;
+        r.probed += 1;
+    }
+    r.evals += evals;
+    r.ops_run += case.creates.len() as u64;
+    if let Some((sig, msg)) = viol {
+        r.viol(case, &[], sig, msg);
+        return r;
+    }
+    let mut seen: HashSet<String> = HashSet::new();
+    seen.insert(rk);
+    let mut frontier: Vec<Vec<OOp>> = vec![vec![]];
+    for d in 1..=case.max_depth {
+        let results: Vec<Vec<OTr>> = if inner_par { frontier.par_iter().map(|p| o_expand(case, p, &seen, selftest)).collect() } else { frontier.iter().map(|p| o_expand(case, p, &seen, selftest)).collect() };
+        let mut next = vec![];
+        for tr in results.into_iter().flatten() {
+            r.transitions += 1;
+            r.ops_run += (case.creates.len() + tr.path.len()) as u64;
+            r.evals += tr.evals;
+            r.probed += u64::from(tr.probed);
+            r.undeletable_in_drain += tr.undeletable;
+            r.tally(tr.obs);
+            if let Some((sig, msg)) = tr.viol {
+                r.viol(case, &tr.path, sig, msg);
+                continue; // a state where the property already failed is not expanded
+            }
+            if seen.insert(tr.key.clone()) {
+                r.states += 1;
+                r.max_level = r.max_level.max(d);
+                if tr.shared {
+                    r.shared_states += 1;
+                }
+                if r.sample.is_none() && tr.path.len() >= 3 {
+                    r.sample = Some(json!({"part": case.part, "setup": case.show(), "ops": oshow_path(&tr.path), "state": tr.key}));
+                }
+                next.push(tr.path);
+            }
+        }
+        frontier = next;
+        if frontier.is_empty() {
+            break;
+        }
+    }
+    if !frontier.is_empty() {
+        r.not_fixpoint = 1;
+    }
+    r
+}
+
+fn run_cases(cases: &[OCase], inner_par: bool, selftest: &'static str) -> ORes {
+    let parts: Vec<ORes> = if inner_par { cases.iter().map(|c| run_case(c, true, selftest)).collect() } else { cases.par_iter().map(|c| run_case(c, false, selftest)).collect() };
+    let mut t = ORes::default();
+    for p in parts {
+        t.merge(p);
+    }
+    t
+}
+
+fn replay_o(rep: &mut Report, case: OCase, ops: Vec<OOp>, selftest: &'static str) {
+    eprintln!("  setup: {}", case.show());
+    let mut w = OWorld::build(&case, selftest);
+    let mut evals = 0;
+    eprintln!("  {:<56} chunks={:?}", "(after setup)", chunk_table(&w.blob));
+    if let Some((sig, msg)) = w.step_check(&mut evals) {
+        rep.violation(sig, format!("{}: {msg}", case.show()), json!({"part": case.part, "case": case, "ops": []}));
+        return;
+    }
+    for (i, &op) in ops.iter().enumerate() {
+        if !w.enabled(case.profile).contains(&op) && !w.enabled(Profile::Mutate).contains(&op) {
+            machinery(&format!("replay: op {i} {op:?} not enabled"));
+        }
+        let obs = w.apply(op);
+        eprintln!("  {:<56} -> {obs:?} chunks={:?}", oshow(op), chunk_table(&w.blob));
+        if let Some((sig, msg)) = w.step_check(&mut evals) {
+            rep.violation(sig, format!("{} then {:?}: {msg}", case.show(), oshow_path(&ops[..=i])), json!({"part": case.part, "case": case, "ops": &ops[..=i]}));
+            return;
+        }
+    }
+    if ops.is_empty() {
+        if let Some((sig, msg)) = w.integrity(&mut evals) {
+            rep.violation(sig, format!("{}: {msg}", case.show()), json!({"part": case.part, "case": case, "ops": ops}));
+            return;
+        }
+    }
+    if let (Some((sig, msg)), _) = w.drain(&mut evals) {
+        rep.violation(sig, format!("{} then {:?}: {msg}", case.show(), oshow_path(&ops)), json!({"part": case.part, "case": case, "ops": ops}));
+    }
+}
+
+/// Part P: the full PutOptions product on artifact #0 (9 bytes = chunks aaaa, bbbb, a), a plain `put` of
+/// "aaaabbbb" as #1 sharing two chunks (or created first), for each store configuration and both ways of
+/// writing; then every sequence of delete(#0) / delete(#1) / gc / full_gc / repair up to the fixpoint.
+fn cases_p(thorough: bool) -> Vec<OCase> {
+    let mut v = vec![];
+    let sharer = Create { kind: Kind::Put, content: 1, opt: Opt::default() };
+    let mut cfgs: Vec<(Cfg, bool)> = vec![]; // (config, primary?)
+    for dct in 0..3u8 {
+        cfgs.push((Cfg { dct, ..Default::default() }, true));
+    }
+    for dct in 0..3u8 {
+        // (no gc_batch_size variant here: with a batch smaller than the number of chunks gc_cycle looks at the
+        // first keys of a HashSet-ordered scan, so which orphan goes first is not reproducible; part Q has it)
+        cfgs.push((Cfg { dct, min_age0: true, ..Default::default() }, false));
+    }
+    for (cfg, primary) in cfgs {
+        // 2 = every combination; 1 = content type x tags x links in full, of the four fields that are only
+        // copied into the record (metadata, created_by, filename, embedding) none, each one alone, or all
+        // together; 0 = content type x tags x links only (the fields that decide which index entries exist)
+        let level = match (thorough, primary) {
+            (true, true) => 2,
+            (true, false) | (false, true) => 1,
+            (false, false) => 0,
+        };
+        for i in 0..Opt::count() {
+            let opt = Opt::from_index(i);
+            let copied = [opt.meta != 0, opt.by != 0, opt.fname != 0, opt.emb != 0].iter().filter(|x| **x).count();
+            let keep = match level {
+                2 => true,
+                1 => copied <= 1 || (opt.meta, opt.by, opt.fname, opt.emb) == (1, 1, 1, 2),
+                _ => copied == 0,
+            };
+            if !keep {
+                continue;
+            }
+            for kind in [Kind::Put, Kind::Stream] {
+                let x = Create { kind, content: 0, opt };
+                v.push(OCase { part: "P".into(), cfg, creates: vec![x, sharer], profile: Profile::Life, max_depth: 12 });
+                if thorough && primary {
+                    v.push(OCase { part: "P".into(), cfg, creates: vec![sharer, x], profile: Profile::Life, max_depth: 12 });
+                }
+            }
+        }
+    }
+    v
+}
+
+/// Part O: calls that rewrite the metadata record of artifact #0 (update_metadata, set_meta, tag, untag,
+/// link, unlink, set_embedding) interleaved with delete / gc / full_gc / repair, depth-bounded.
+fn cases_o(thorough: bool, depth: usize) -> Vec<OCase> {
+    let inits: Vec<Opt> = if thorough {
+        vec![
+            Opt::default(),
+            Opt { ct: 1, ..Default::default() },
+            Opt { ct: 2, tags: 1, links: 1, meta: 1, by: 1, ..Default::default() },
+            Opt { tags: 3, links: 2, ..Default::default() },
+            Opt { ct: 1, tags: 2, links: 1, meta: 1, fname: 1, emb: 2, ..Default::default() },
+        ]
+    } else {
+        vec![Opt::default(), Opt { ct: 2, tags: 1, links: 1, meta: 1, by: 1, ..Default::default() }, Opt { tags: 3, links: 2, ..Default::default() }]
+    };
+    let dcts: Vec<u8> = if thorough { vec![0, 1, 2] } else { vec![0, 1] };
+    let sharer = Create { kind: Kind::Put, content: 1, opt: Opt::default() };
+    let mut v = vec![];
+    for &dct in &dcts {
+        for &opt in &inits {
+            v.push(OCase { part: "O".into(), cfg: Cfg { dct, ..Default::default() }, creates: vec![Create { kind: Kind::Put, content: 0, opt }, sharer], profile: Profile::Mutate, max_depth: depth });
+        }
+    }
+    v
+}
+
+/// Part C: max_artifact_size / max_artifacts: a refused write must leave everything else intact.
+fn cases_c() -> Vec<OCase> {
+    let mut v = vec![];
+    for max_size in [0u8, 1, 4, 5, 8] {
+        for max_arts in [0u8, 1] {
+            if max_size == 0 && max_arts == 0 {
+                continue;
+            }
+            for kind in [Kind::Put, Kind::Stream] {
+                for content in 0..O_CONTENTS.len() as u8 {
+                    for ct in [0u8, 1] {
+                        let first = Create { kind: Kind::Put, content: 2, opt: Opt::default() };
+                        let x = Create { kind, content, opt: Opt { ct, ..Default::default() } };
+                        v.push(OCase { part: "C".into(), cfg: Cfg { max_size, max_arts, ..Default::default() }, creates: vec![first, x], profile: Profile::Life, max_depth: 12 });
+                    }
+                }
+            }
+        }
+    }
+    v
+}
+
 // =================================================================================== Part E1
 #[derive(Clone, Debug)]
 enum SOp {
@@ -813,6 +1845,8 @@ enum TOp {
     Stream(&'static [&'static str]),
     /// delete the artifact created by setup op #i
     Delete(usize),
+    /// tag("t") on the artifact created by setup op #i (rewrites its metadata record)
+    Tag(usize),
     Gc,
     FullGc,
 }
@@ -867,6 +1901,9 @@ fn scenarios() -> Vec<Scn> {
         Scn { name: "stream(a,aaa,bbbb)|delete(A)|gc", setup: vec![SP("aaaa")], pre_age: true, threads: vec![vec![Stream(&["a", "aaa", "bbbb"])], vec![Delete(0)], vec![Gc]], bound_quick: 2, bound_thorough: 3, thorough_only: false },
         Scn { name: "put(A)|put(AB)|delete(A)", setup: vec![SP("aaaa")], pre_age: false, threads: vec![vec![Put("aaaa")], vec![Put("aaaabbbb")], vec![Delete(0)]], bound_quick: 2, bound_thorough: 3, thorough_only: true },
         Scn { name: "put(AB)|put(A)|delete(A)|gc", setup: vec![SP("aaaa")], pre_age: true, threads: vec![vec![Put("aaaabbbb")], vec![Put("aaaa")], vec![Delete(0)], vec![Gc]], bound_quick: 1, bound_thorough: 2, thorough_only: true },
+        // not part of any tier (the quantifier of C19 has concurrent writers and deleters of content only): run with
+        // --scenario="optin:tag(A#0)|delete(A#0)" --parts=E1
+        Scn { name: "optin:tag(A#0)|delete(A#0)", setup: vec![SP("aaaa")], pre_age: true, threads: vec![vec![Tag(0)], vec![Delete(0)]], bound_quick: 3, bound_thorough: 4, thorough_only: true },
         Scn { name: "put(A)|delete(A);gc", setup: vec![SP("aaaa")], pre_age: true, threads: vec![vec![Put("aaaa")], vec![Delete(0), Gc]], bound_quick: 3, bound_thorough: 4, thorough_only: true },
     ]
 }
@@ -876,6 +1913,7 @@ enum TRes {
     Created(String, Vec<u8>),
     CreateErr(String),
     Deleted(usize, Result<(), String>),
+    Tagged(usize, Result<(), String>),
     Collected(&'static str, usize),
 }
 
@@ -899,6 +1937,7 @@ fn run_top(blob: &BlobStore, op: &TOp, setup_ids: &[String]) -> TRes {
             }
         }
         TOp::Delete(i) => TRes::Deleted(*i, now(blob.delete(&setup_ids[*i])).map_err(|e| e.to_string())),
+        TOp::Tag(i) => TRes::Tagged(*i, now(blob.tag(&setup_ids[*i], "t")).map_err(|e| e.to_string())),
         TOp::Gc => TRes::Collected("gc", now(blob.gc()).map(|g| g.deleted).unwrap_or(usize::MAX)),
         TOp::FullGc => TRes::Collected("full_gc", now(blob.full_gc()).map(|g| g.deleted).unwrap_or(usize::MAX)),
     }
@@ -951,13 +1990,19 @@ fn judge(scn: &Scn, blob: &BlobStore, setup: &[(String, Vec<u8>, bool)], stamped
                     tres.push_str(&format!("t{t}:deleted#{i};"));
                 }
                 TRes::Deleted(i, Err(e)) => tres.push_str(&format!("t{t}:delete#{i}-err({e});")),
+                TRes::Tagged(i, r) => tres.push_str(&format!("t{t}:tag#{i}->{};", if r.is_ok() { "ok" } else { "err" })),
                 TRes::Collected(w, n) => tres.push_str(&format!("t{t}:{w}->{n};")),
             }
         }
     }
+    // an artifact whose delete went through but which exists at quiescence (its record was written again by
+    // a concurrent metadata update): it exists, so it must read back like any other
+    let mut recreated: Vec<(String, Vec<u8>)> = vec![];
     for (i, (id, bytes, live)) in setup.iter().enumerate() {
         if *live && !deleted.contains(&i) {
             arts.push((id.clone(), bytes.clone()));
+        } else if *live && now(blob.exists(id)) == Ok(true) {
+            recreated.push((id.clone(), bytes.clone()));
         }
     }
     for rs in results {
@@ -995,27 +2040,39 @@ fn judge(scn: &Scn, blob: &BlobStore, setup: &[(String, Vec<u8>, bool)], stamped
     // phase 2: a collection must keep every existing artifact
     nvc::env::clock_advance_ms(AGE_MS);
     let _ = now(blob.gc());
+    if let Some(e) = check_all(&recreated) {
+        outcome.push_str(" FAIL@recreated");
+        return Judged { outcome, viol: Some(("c19:conc:metadata-update-recreates-deleted-artifact".into(), format!("delete returned Ok, a concurrent tag() wrote the metadata record back: the artifact exists but its chunk references are gone; after clock+61s;gc: {e}; threads: {tres} chunk table at quiescence {table0:?}"))) };
+    }
+    arts.extend(recreated);
     if let Some(e) = check_all(&arts) {
         outcome.push_str(" FAIL@gc");
         return Judged { outcome, viol: Some((SIG_REFRACE.into(), format!("after quiescence, clock+61s;gc: {e}; threads: {tres} chunk table at quiescence {table0:?}"))) };
     }
     // phase 3: drain
+    let mut undeletable: Vec<(String, Vec<u8>)> = vec![];
     while !arts.is_empty() {
         let (id, bytes) = arts.remove(0);
-        if let Err(e) = now(blob.delete(&id)) {
-            machinery(&format!("drain delete failed: {e}"));
+        if delete_obs(blob, &id).0 == DelObs::ErrKept && delete_obs(blob, &id).0 == DelObs::ErrKept {
+            // cannot be deleted (error twice, still exists): it stays in the reference and is checked below
+            undeletable.push((id, bytes.clone()));
         }
         nvc::env::clock_advance_ms(AGE_MS);
         let _ = now(blob.gc());
+        if let Some(e) = check_all(&undeletable) {
+            outcome.push_str(" FAIL@drain-delerr");
+            return Judged { outcome, viol: Some((SIG_DELERR.into(), format!("after quiescence, delete returned an error twice and the artifact still exists; after clock+61s;gc: {e}; threads: {tres}"))) };
+        }
         if let Some(e) = check_all(&arts) {
             outcome.push_str(" FAIL@drain");
-            return Judged { outcome, viol: Some((SIG_REFRACE.into(), format!("after quiescence, delete({:?}), clock+61s;gc: {e}; threads: {tres} chunk table at quiescence {table0:?}", s(&bytes)))) };
+            let sig = if undeletable.is_empty() { SIG_REFRACE } else { SIG_DELERR };
+            return Judged { outcome, viol: Some((sig.into(), format!("after quiescence, delete({:?}), clock+61s;gc: {e}; threads: {tres} chunk table at quiescence {table0:?}", s(&bytes)))) };
         }
     }
     nvc::env::clock_advance_ms(AGE_MS);
     let _ = now(blob.full_gc());
     let left = chunk_table(blob);
-    if !left.is_empty() {
+    if undeletable.is_empty() && !left.is_empty() {
         outcome.push_str(" FAIL@final");
         return Judged { outcome, viol: Some(("c19:full-gc-leaves-chunks".into(), format!("all artifacts deleted, full_gc left {left:?}"))) };
     }
@@ -1162,7 +2219,7 @@ fn selected(scn: &Scn, thorough: bool, only: &Option<String>) -> bool {
     if let Some(o) = only {
         return scn.name == o;
     }
-    thorough || !scn.thorough_only
+    !scn.name.starts_with("optin:") && (thorough || !scn.thorough_only)
 }
 
 fn e1_worker(part: (usize, usize), thorough: bool, only: Option<String>, selftest: &'static str) -> ! {
@@ -1254,7 +2311,7 @@ fn main() {
     let args = nvc::report::Args::parse();
     let selftest: &'static str = Box::leak(args.flag("selftest").unwrap_or_default().into_boxed_str());
     let only = args.flag("scenario");
-    let parts = args.flag("parts").unwrap_or_else(|| "S,Q,E1".into());
+    let parts = args.flag("parts").unwrap_or_else(|| "S,Q,P,O,C,E1".into());
     if let (Some(part), true) = (args.worker, args.rest.iter().any(|a| a == "--e1")) {
         nvc::env::require();
         e1_worker(part, args.thorough(), only, selftest);
@@ -1278,17 +2335,27 @@ fn main() {
                 let choices: Vec<usize> = serde_json::from_value(r["choices"].clone()).unwrap_or_else(|e| machinery(&format!("bad choices: {e}")));
                 replay_e1(&mut rep, r["scenario"].as_str().unwrap_or(""), &choices, selftest);
             }
-            _ => machinery("replay: only parts Q and E1 can be replayed from a file (part S cases are self-describing)"),
+            Some("P" | "O" | "C") => {
+                let case: OCase = serde_json::from_value(r["case"].clone()).unwrap_or_else(|e| machinery(&format!("bad case: {e}")));
+                let ops: Vec<OOp> = serde_json::from_value(r["ops"].clone()).unwrap_or_else(|e| machinery(&format!("bad ops: {e}")));
+                replay_o(&mut rep, case, ops, selftest);
+            }
+            _ => machinery("replay: only parts Q, P, O, C and E1 can be replayed from a file (part S cases are self-describing)"),
         }
         rep.sample(json!({"replayed": path}));
         rep.finish();
     }
 
     rep.rule("S: chunk sizes x content sizes {0,1,cs-1,cs,cs+1,2cs-1,2cs,2cs+1,3cs+1,5cs+2} (thorough: 0..=5cs+2) x 2 content families x every split into 3 write() calls (empty writes included), then put of identical bytes, delete of the streamed twin, gc+full_gc; non-trivial = more than one chunk");
-    rep.rule("Q: BFS over put(8 contents of sizes 1,3,4,4,5,8,8,9)/open_writer/write(5 pieces)/finish/drop_writer/delete/gc(after clock+61s)/full_gc/repair, chunk size 4, <=3 artifacts incl. one in-flight writer, <=3 writes per writer; dedup on canonical store state (artifact contents+chunk lists, chunk table with stored refcounts, writer progress); non-trivial = states where a chunk has >=2 references; every new state is probed: 4 alterations + removal per chunk per artifact, gc, full_gc, delete-one-by-one with gc, final full_gc");
+    rep.rule("Q (depth 6 quick / 8 thorough; second pass with gc_batch_size 2: depth 5 quick / 8 thorough): BFS over put(8 contents of sizes 1,3,4,4,5,8,8,9)/open_writer/write(5 pieces)/finish/drop_writer/delete/gc(after clock+61s)/full_gc/repair, chunk size 4, <=3 artifacts incl. one in-flight writer, <=3 writes per writer; dedup on canonical store state (artifact contents+chunk lists, chunk table with stored refcounts, writer progress); non-trivial = states where a chunk has >=2 references; every new state is probed: 4 alterations + removal per chunk per artifact, gc, full_gc, delete-one-by-one with gc, final full_gc");
+    rep.rule("P: artifact #0 = \"aaaabbbba\" (chunks aaaa,bbbb,a) written by put and by writer+2 writes with PutOptions combinations of content_type {not given, \"\", custom} x tags {none, [t], [t,u], [t,t]} x links {none, [e], [e,e]} x custom metadata {none, 2 keys incl. empty key} x created_by {none, set} x filename {f, \"\"} x embedding {none, dense, sparse}: level 2 = all 864, level 1 = content_type x tags x links in full and of the other four fields none / each alone / all together (252), level 0 = content_type x tags x links (36); artifact #1 = put(\"aaaabbbb\") with default options; stores with default_content_type {default, \"\", text/plain} (primary; level 1 quick / 2 thorough, thorough also with #1 created first) and the same three with gc_min_age 0 and gc after 1 s (secondary; level 0 quick / 1 thorough); BFS over delete(#0)/delete(#1)/gc/full_gc/repair to the fixpoint, dedup on the canonical dump of every _blob: key (metadata records, index entries, chunk table with refcounts); a delete returning Err keeps the artifact in the reference iff exists() says so, every successful delete is repeated once; after every step each existing artifact reads back, after full_gc with no artifact left the chunk table is empty; integrity probes (4 alterations + removal of every chunk of both artifacts) at the initial state");
+    rep.rule("O: same two artifacts (#0 with 3 (thorough 5) option sets, default_content_type default / \"\" (thorough also text/plain)); BFS of depth 4 (thorough 7) over update_metadata(content_type \"\" | image/png), update_metadata(filename, set key, delete key), set_meta, tag(t|n), untag(t|zz), link(e|m), unlink(e|zz), set_embedding on #0 plus delete(#0)/delete(#1)/gc/full_gc/repair; results of the metadata calls are not judged; every new state is drained (gc, full_gc, delete one by one with one retry after an error, gc after each, final full_gc leaves no chunk)");
+    rep.rule("C: max_artifact_size {1,4,5,8,unlimited} x max_artifacts {unlimited,1} x put/stream x 4 contents x content_type {not given, \"\"} after put(\"aaaa\"): a refused write is tolerated, whatever exists must read back, then as in P");
     rep.rule("E1: every schedule with <= bound preemptions (scheduling point = every parking_lot lock acquisition inside /repo, via vendored lock_api; bound quick/thorough = 3/4 for 2 threads, 2/3 for 3 threads, -/2 for 4 threads) of 2-4 real threads running put/stream/delete/gc/full_gc on overlapping content; after quiescence: read back, gc, drain as in Q; outcome = per-thread results + completion order + chunk table with stored refcounts");
     rep.assume("tensor_blob futures never suspend (checked: a Pending poll aborts the run), so they are driven by a single poll instead of a tokio runtime: tokio is built with parking_lot, a runtime inside a scheduled thread would add irrelevant scheduling points");
     rep.assume("chunk alteration/removal for the integrity clause is injected through BlobStore::store() (the underlying TensorStore)");
+    rep.assume("the statement does not promise that delete succeeds: an Err from delete is never a violation by itself; the artifact stays in the reference when exists() still reports it (it must then keep reading back across gc) and counts as deleted otherwise; `after all artifacts are deleted` is evaluated only when every delete went through (artifacts_undeletable_in_drain is reported)");
+    rep.assume("listings and accessors (by_tag, by_content_type, by_creator, artifacts_for, links, get_meta, metadata fields other than size) and the results of tag/untag/link/unlink/update_metadata/set_meta/set_embedding are exercised but not judged: the statement is about bytes, chunks and collection only; the background collector (start/shutdown, gc_interval) needs a tokio runtime and wall-clock ticks and is not run; max_artifacts is set but /repo never reads it");
     rep.assume("a failed state is not expanded further (part Q); E1 explores each scenario with preemption bound, not all schedules");
 
     let mut total_states = 0u64;
@@ -1296,8 +2363,11 @@ fn main() {
     let mut total_evals = 0u64;
     let mut nontrivial = 0u64;
 
+    let mut walls = serde_json::Map::new();
     if parts.contains('S') {
+        let t0 = nvc::env::real_now_s();
         let ps = part_s(thorough, selftest);
+        walls.insert("S".into(), json!(((nvc::env::real_now_s() - t0) * 10.0).round() / 10.0));
         for (sig, msg, r) in &ps.viol {
             rep.violation(sig.clone(), msg.clone(), r.clone());
         }
@@ -1317,14 +2387,17 @@ fn main() {
     }
 
     // part Q twice: with the default collector batch (100) and with a batch of 2, smaller than the number
-    // of artifacts and chunks the sequences create (the incremental and the full collector scan in batches)
+    // of artifacts and chunks the sequences create (the incremental and the full collector scan in batches);
+    // quick tier: the second pass one level shallower (time budget shared with parts P / O / C)
     for (batch, pname) in [(0usize, "Q"), (2, "Q_gc_batch_2")] {
         if !parts.contains('Q') {
             break;
         }
         GC_BATCH.store(batch, std::sync::atomic::Ordering::Relaxed);
-        let depth = args.flag("depth").and_then(|d| d.parse().ok()).unwrap_or(if thorough { 8 } else { 6 });
+        let depth = args.flag("depth").and_then(|d| d.parse().ok()).unwrap_or(if thorough { 8 } else if batch == 0 { 6 } else { 5 });
+        let t0 = nvc::env::real_now_s();
         let q = part_q(&mut rep, depth, selftest);
+        walls.insert(pname.into(), json!(((nvc::env::real_now_s() - t0) * 10.0).round() / 10.0));
         rep.part(
             pname,
             json!({"gc_batch_size": if batch == 0 { 100 } else { batch }, "depth": q.depth, "states": q.states, "states_with_shared_chunk": q.shared_states, "transitions": q.transitions, "ops_executed_incl_replay": q.ops_run,
@@ -1341,13 +2414,76 @@ fn main() {
     }
     GC_BATCH.store(0, std::sync::atomic::Ordering::Relaxed);
 
+    // parts P / O / C: option space of put / stream-write, store configuration, metadata-rewriting calls
+    for pname in ["P", "O", "C"] {
+        if !parts.contains(pname) {
+            continue;
+        }
+        let t0 = nvc::env::real_now_s();
+        let o_depth = args.flag("odepth").and_then(|d| d.parse().ok()).unwrap_or(if thorough { 7 } else { 4 });
+        let (cases, inner_par) = match pname {
+            "P" => (cases_p(thorough), false),
+            "O" => (cases_o(thorough, o_depth), true),
+            _ => (cases_c(), false),
+        };
+        let r = run_cases(&cases, inner_par, selftest);
+        for (sig, msg, rj) in &r.viols {
+            rep.violation(sig.clone(), msg.clone(), rj.clone());
+        }
+        for (sig, n) in &r.by_sig {
+            let kept = r.viols.iter().filter(|v| &v.0 == sig).count() as u64;
+            for _ in kept..*n {
+                rep.violation(sig.clone(), "", json!({}));
+            }
+        }
+        if let Some(smp) = r.sample.clone() {
+            rep.sample(smp);
+        }
+        let mut pj = r.to_json();
+        pj["wall_s"] = json!(((nvc::env::real_now_s() - t0) * 10.0).round() / 10.0);
+        if pname == "O" {
+            pj["depth"] = json!(o_depth);
+        }
+        rep.part(pname, pj);
+        total_states += r.states;
+        total_transitions += r.transitions + r.cases;
+        total_evals += r.evals;
+        nontrivial += r.shared_states;
+        match pname {
+            "P" => {
+                // every option combination must have produced a different stored record
+                // (content type given explicitly as "" and a default of "" are the same record)
+                let eff = |c: &OCase, o: Opt| if o.ct == 0 { [0u8, 1, 3][c.cfg.dct as usize] } else { o.ct };
+                let combos = cases.iter().map(|c| (c.creates.iter().map(|x| (eff(c, x.opt), Opt { ct: 0, ..x.opt }, x.content)).collect::<Vec<_>>())).collect::<HashSet<_>>().len();
+                if r.violating == 0 && (r.root_keys.len() < combos || r.del_ok < r.cases || r.not_fixpoint > 0) {
+                    rep.machinery(format!("vacuous part P: {} distinct initial states for {combos} option/config combinations, {} deletes, {} cases cut", r.root_keys.len(), r.del_ok, r.not_fixpoint));
+                }
+            }
+            "O" => {
+                if r.violating == 0 && (r.states < 500 || r.mut_ok < 500) {
+                    rep.machinery("vacuous part O: too few states");
+                }
+                if r.not_fixpoint == 0 {
+                    rep.set("part_O_reached_fixpoint", json!(true));
+                }
+            }
+            _ => {
+                if r.violating == 0 && (r.create_err == 0 || r.states < 100) {
+                    rep.machinery("vacuous part C: no write was refused");
+                }
+            }
+        }
+    }
+
     if parts.contains("E1") {
         let n = nvc::par::worker_count();
         let mut extra = vec!["--e1".to_string()];
         if let Some(o) = &only {
             extra.push(format!("--scenario={o}"));
         }
+        let t0 = nvc::env::real_now_s();
         let all: Vec<Vec<ScnOut>> = nvc::par::spawn_workers(n, &extra);
+        walls.insert("E1".into(), json!(((nvc::env::real_now_s() - t0) * 10.0).round() / 10.0));
         let merged = merge_e1(all);
         let mut e1 = serde_json::Map::new();
         let mut e1_samples: Vec<(String, VSample, u64)> = vec![];
@@ -1400,6 +2536,7 @@ fn main() {
         rep.part("E1_workers", json!(n));
     }
 
+    rep.part("wall_s_per_part(not a count; varies with machine load)", Value::Object(walls));
     rep.add("states", total_states);
     rep.add("transitions", total_transitions);
     rep.add("traces_validated_against_impl", total_transitions);
